@@ -1,25 +1,81 @@
 (* Property C08, transparency — answering a NAK does not disturb the rest of the transfer: a sender that is in the middle
    of its File Data stream and receives a NAK with valid segment requests emits exactly the requested tiles and then
-   continues with exactly the PDUs it would have emitted had the NAK never arrived (same File Data PDUs, same EOF),
-   ending in the same state up to the remembered resume step.  For every file, position in the stream and request list. *)
+   continues with exactly the PDUs it would have emitted had the NAK never arrived (same File Data PDUs, same EOF, same
+   behaviour while waiting: timers, EOF repetitions, fault declaration, completion), ending in the same state up to the
+   remembered resume step.  For every file, position in the stream, request list and number of further calls.
+
+   How the two runs are aligned (model evaluated first, then proved): the call that answers the NAK emits the requested
+   tiles and NO new tile, remembers the step and sets RETRANSMITTING; the next call restores the step in
+   _fsm_advancement_after_packets_were_sent and emits the next tile in the same call.  So [pumps n] after the NAK call
+   produces the same outputs as [pumps n] without it: aligned call by call, no empty call in between.
+   Timers: [pumps] does not advance the clock, both runs read the same clock.
+   The remembered step s_step_before is read only in step RETRANSMITTING (TransparentProofs.NI: whole-FSM
+   non-interference), which is why the states agree up to that field after every further call. *)
 From CFDP Require Import Base Fs Crc Checksum Handler Dest Source HandlerSpec SourceSpec.
 From CFDP.proofs Require Import TransparentProofs.
 From RecordUpdate Require Import RecordSet.
 Import RecordSetNotations.
 
-(* DRAFT — the prover fixes the exact form after evaluating the model (in particular whether the call that answers the
-   NAK also emits the next tile, i.e. whether the two runs are aligned call by call or shifted by one call) *)
+(* File Data remains to be sent (q_file_size <> Some progress: the call does not switch to SENDING_EOF before it looks
+   at the packet) and the transaction runs in acknowledged mode (with any other mode value the NAK is not answered).
+   The state after the NAK call is given exactly: only the step and the remembered step differ from [s]. *)
 Theorem c08_nak_transparent : forall (s : src) (p : putreq) (sn dn : path) (d : bytes) (h : hdr) (sos eos : Z)
                                      (reqs : list (Z * Z)) (n : nat),
-  s_state s = ST_BUSY -> s_step s = SS_SENDING_FILE_DATA -> s_queue s = [] -> s_ready s = 0 ->
+  s_state s = ST_BUSY -> s_step s = SS_SENDING_FILE_DATA -> s_queue s = [] ->
+  sc_mode (q_conf (s_p s)) = ACKED ->
+  q_file_size (s_p s) <> Some (q_progress (s_p s)) ->
   s_put s = Some p -> pr_names p = Some (sn, dn) -> lookup (fs_s s) sn = Some (File d) -> sn <> [] ->
   q_progress (s_p s) <= zlen d -> 1 <= q_segment_len (s_p s) ->
   Forall (fun rq => 0 <= fst rq /\ fst rq <= snd rq /\ snd rq <= q_progress (s_p s) /\ ~ (fst rq = 0 /\ snd rq = 0)) reqs ->
   snd (check_inserted_packet_s (PNak h sos eos reqs) s) = Ok tt ->
   let answer := flat_map (fun rq => map (fd_of (hdr_of (q_conf (s_p s)) TOWARDS_RECEIVER))
                                         (range_tiles d (fst rq) (snd rq) (q_segment_len (s_p s)))) reqs in
-  exists s1, pump_with (Some (PNak h sos eos reqs)) s = (s1, Ok answer) /\
-    snd (pumps n s1) = snd (pumps n s) /\
-    (fst (pumps (S n) s1)) <| s_step_before := s_step_before s |> = fst (pumps (S n) s).
+  let s1 := s <| s_step_before := Some SS_SENDING_FILE_DATA |> <| s_step := SS_RETRANSMITTING |> in
+  pump_with (Some (PNak h sos eos reqs)) s = (s1, Ok answer) /\
+  snd (pumps n s1) = snd (pumps n s) /\
+  (fst (pumps (S n) s1)) <| s_step_before := s_step_before s |> = fst (pumps (S n) s).
 Proof. exact nak_transparent. Qed.
 Print Assumptions c08_nak_transparent.
+
+(* the NAK that arrives when all File Data has been sent but the EOF PDU has not (progress = file size): the step
+   advances to SENDING_EOF before the packet is looked at, so the call that answers the NAK emits the EOF PDU FIRST and
+   then the requested tiles (_handle_waiting_for_ack in the same call); from then on the run equals the run that follows
+   the plain EOF call, again call by call and up to the remembered step.  Hypotheses: those under which the EOF call
+   itself is determined (as in C07: checksum computable, positive ACK interval not already expired). *)
+Theorem c08_nak_at_eof : forall (s : src) (p : putreq) (r : rcfg) (tid : Z * Z) (sn dn : path) (d cks : bytes) (h : hdr)
+                                (sos eos : Z) (reqs : list (Z * Z)) (n : nat),
+  s_state s = ST_BUSY -> s_step s = SS_SENDING_FILE_DATA -> s_queue s = [] ->
+  sc_mode (q_conf (s_p s)) = ACKED ->
+  q_file_size (s_p s) = Some (zlen d) -> q_progress (s_p s) = zlen d ->
+  q_md_only (s_p s) = false -> q_rcfg (s_p s) = Some r -> q_tid (s_p s) = Some tid -> 0 < r_ack_ms r ->
+  calculate_checksum (r_cktype r) (Some d) (zlen d) (q_segment_len (s_p s)) = Ok cks ->
+  s_put s = Some p -> pr_names p = Some (sn, dn) -> lookup (fs_s s) sn = Some (File d) -> sn <> [] ->
+  1 <= q_segment_len (s_p s) ->
+  Forall (fun rq => 0 <= fst rq /\ fst rq <= snd rq /\ snd rq <= zlen d /\ ~ (fst rq = 0 /\ snd rq = 0)) reqs ->
+  snd (check_inserted_packet_s (PNak h sos eos reqs) s) = Ok tt ->
+  let eof := PEof (hdr_of (q_conf (s_p s)) TOWARDS_RECEIVER) C_NO_ERROR cks (zlen d) None in
+  let answer := flat_map (fun rq => map (fd_of (hdr_of (q_conf (s_p s)) TOWARDS_RECEIVER))
+                                        (range_tiles d (fst rq) (snd rq) (q_segment_len (s_p s)))) reqs in
+  exists s', pump s = (s', Ok [eof]) /\
+    let s1 := s' <| s_step_before := Some SS_WAITING_FOR_EOF_ACK |> <| s_step := SS_RETRANSMITTING |> in
+    pump_with (Some (PNak h sos eos reqs)) s = (s1, Ok (eof :: answer)) /\
+    snd (pumps n s1) = snd (pumps n s') /\
+    (fst (pumps (S n) s1)) <| s_step_before := s_step_before s |> = fst (pumps (S n) s').
+Proof. exact nak_at_eof. Qed.
+Print Assumptions c08_nak_at_eof.
+
+(* the general fact behind both: in ANY state whose step is not RETRANSMITTING, calls without inbound PDU neither read
+   nor write the remembered step, and never enter step RETRANSMITTING *)
+Theorem c08_step_before_unobserved : forall (n : nat) (s : src) (x : option Z),
+  s_step s <> SS_RETRANSMITTING ->
+  pumps n (s <| s_step_before := x |>) = ((fst (pumps n s)) <| s_step_before := x |>, snd (pumps n s)) /\
+  s_step (fst (pumps n s)) <> SS_RETRANSMITTING.
+Proof. exact pumps_NI. Qed.
+Print Assumptions c08_step_before_unobserved.
+
+(* where the mode is one of the two defined ones, the admission check already implies acknowledged mode *)
+Theorem c08_accepted_nak_acked : forall s h sos eos reqs,
+  sc_mode (q_conf (s_p s)) = ACKED \/ sc_mode (q_conf (s_p s)) = UNACKED ->
+  snd (check_inserted_packet_s (PNak h sos eos reqs) s) = Ok tt -> sc_mode (q_conf (s_p s)) = ACKED.
+Proof. exact accepted_nak_acked. Qed.
+Print Assumptions c08_accepted_nak_acked.
